@@ -92,13 +92,19 @@ func c02(tier string) int {
 				return
 			}
 			of := filepath.Join(dir, "res.json")
-			cmd := exec.Command("node", "--stack-size=4000", filepath.Join(jsx.VerifRoot(), "js", "c02.js"), out, dout, fmt.Sprint(susp.NCases()), tier, of)
-			cmd.Stderr = os.Stderr
-			if err := cmd.Run(); err != nil {
-				mu.Lock()
-				env.Harness = append(env.Harness, "c02.js failed for "+p.Name+": "+err.Error())
-				mu.Unlock()
-				return
+			runNode := func() error {
+				cmd := exec.Command("node", "--stack-size=4000", "--max-old-space-size=2048", filepath.Join(jsx.VerifRoot(), "js", "c02.js"), out, dout, fmt.Sprint(susp.NCases()), tier, of)
+				cmd.Stderr = os.Stderr
+				return cmd.Run()
+			}
+			if err := runNode(); err != nil {
+				// The explorer process itself died (typically the JavaScript engine ran out of memory in a
+				// runaway loop of the compiled program). Native Go ran the same program to the end: a second,
+				// identical death is the program's behaviour, not a harness problem.
+				if err2 := runNode(); err2 != nil {
+					env.Rep.Violation(p.Name+"/engine-crash", "exploring the cases of this program kills the JavaScript engine twice ("+err.Error()+" / "+err2.Error()+"); native Go runs all of them to the end", progFiles(p))
+					return
+				}
 			}
 			b, _ := os.ReadFile(of)
 			var res struct {
